@@ -74,9 +74,9 @@ func c13(c *Ctx) {
 					return
 				}
 				nTrue++
-				empty := origin != nil && hasLit(p, len(p.Lits), true, func(t *core.Term) bool {
+				empty := origin != nil && (hasLit(p, len(p.Lits), true, func(t *core.Term) bool {
 					return t.Kind == core.KEq && t.Args[0].Kind == core.KLen && t.Args[0].Args[0] == origin && func() bool { v, isC := t.Args[1].Int64(); return isC && v == 0 }()
-				})
+				}) || knowsLt(p, len(p.Lits), 1, func(y *core.Term) bool { return y.Kind == core.KLen && y.Args[0] == origin }))
 				if !empty {
 					ok, why = false, "checkSameOrigin returns true at "+c.P.Pos(p.Ret.Pos())+" although an Origin header is present"
 				}
@@ -141,6 +141,9 @@ func c13fold(c *Ctx) {
 					continue
 				}
 				f := ci.Common().StaticCallee()
+				if f != nil && c.P.InPkg(f) && !c.P.Mod(f).External && len(c.P.Mod(f).Writes) == 0 {
+					continue // a pure in-package helper (its comparisons are inlined into the rune-pair table below)
+				}
 				if f == nil || extName(f) != "unicode/utf8.DecodeRuneInString" {
 					name := "a dynamic call"
 					if f != nil {
